@@ -293,6 +293,15 @@ class _SCRG_enantiomer_changes(LoopInv):
     ChangeDict with the inverted descriptors; nothing else is written"""
     atomic = True
     allocates = True  # every iteration builds a new ChangeDict
+    copy_name = "enantiomer"
+    source_is_the_copy = False   # the descriptors are read from self (never written)
+    what = "visited-entries-hold-the-inverted-descriptors"
+
+    def role(self, c):
+        return c
+
+    def transform(self, slot):
+        return H.ODescrS.DSome(GM.d_invert(H.ODescrS.dd(slot)))
 
     def setup(self, ctx, iterable):
         t = "achg" if self.atomic else "bchg"
@@ -300,7 +309,7 @@ class _SCRG_enantiomer_changes(LoopInv):
         self.modifies_dict_val = (t, "chg")
 
     def inv(self, ctx, done):
-        e = ctx.fr.env["enantiomer"]
+        e = ctx.fr.env[self.copy_name]
         v0 = ctx.v_entry                      # the source at loop entry (never written)
         E = ctx.h_entry
         h = H.heap_of(ctx.interp)
@@ -314,7 +323,7 @@ class _SCRG_enantiomer_changes(LoopInv):
         t = "achg" if at else "bchg"
         tref = e.fields["_atom_stereo_change" if at else "_bond_stereo_change"].ref
         pick = lambda vv: (vv.ac_has, vv.ac_ref, vv.ac_slot_has, vv.ac_slot) if at else (vv.bc_has, vv.bc_ref, vv.bc_slot_has, vv.bc_slot)  # noqa
-        has0, ref0, sh0, sl0 = pick(v0)
+        has0, ref0, sh0, sl0 = pick(vE if self.source_is_the_copy else v0)
         hasE, refE, shE, slE = pick(vE)
         hasN, refN, shN, slN = pick(vN)
         topE, topN = E.top(), N.top()
@@ -330,14 +339,14 @@ class _SCRG_enantiomer_changes(LoopInv):
             ("change-dicts-of-the-copy-allocated-during-the-call", FA([k], z3.Implies(hasN(k), z3.And(refN(k) >= E.A0, refN(k) < topN)), patterns=[refN(k)])),
             ("change-dicts-of-the-copy-unshared", FA([k, k2], z3.Implies(z3.And(hasN(k), hasN(k2), k != k2), refN(k) != refN(k2)), patterns=[z3.MultiPattern(refN(k), refN(k2))])),
             ("visited-entries-are-keys-of-the-copy", FA([k], z3.Implies(touched(k), hasN(k)), patterns=[z3.Select(done, k)])),
-            ("visited-entries-have-the-source's-slots", FA([k, c], z3.Implies(touched(k), shN(k, c) == sh0(k, c)), patterns=[shN(k, c)])),
-            ("visited-entries-hold-the-inverted-descriptors",
-             FA([k, c], z3.Implies(z3.And(touched(k), sh0(k, c)), slN(k, c) == H.ODescrS.DSome(GM.d_invert(H.ODescrS.dd(sl0(k, c))))), patterns=[slN(k, c)])),
+            ("visited-entries-have-the-source's-slots", FA([k, c], z3.Implies(touched(k), shN(k, c) == sh0(k, self.role(c))), patterns=[shN(k, c)])),
+            (self.what,
+             FA([k, c], z3.Implies(z3.And(touched(k), sh0(k, self.role(c))), slN(k, c) == self.transform(sl0(k, self.role(c)))), patterns=[slN(k, c)])),
         ]
 
     def hints(self, ctx, x):
         # the source's change dictionary under the loop element (an old reference) and the copy's
-        e = ctx.fr.env["enantiomer"]
+        e = ctx.fr.env[self.copy_name]
         vE = GM.View(ctx.h_entry, e)
         return [ctx.v_entry.ac_ref(x), vE.ac_ref(x)] if self.atomic else [ctx.v_entry.bc_ref(x), vE.bc_ref(x)]
 
@@ -403,11 +412,39 @@ class SCRG_subgraph_1(LoopInv):
         return [ctx.v_entry.ac_ref(x), vE.ac_ref(x)] if self.t is H.D_ACHG else [ctx.v_entry.bc_ref(x), vE.bc_ref(x)]
 
 
+class _SCRG_reverse_changes(_SCRG_enantiomer_changes):
+    """both loops of SCRG.reverse_reaction run over the tables of the COPY and replace every entry by a newly allocated
+    ChangeDict with the roles FORMED and BROKEN exchanged (each entry is read in its own iteration, before it is replaced)"""
+    copy_name = "rev_reac"
+    source_is_the_copy = True
+    what = "visited-entries-hold-the-descriptors-of-the-exchanged-role"
+
+    def role(self, c):
+        from .derive_ops import _swap_chg
+
+        return _swap_chg(c)
+
+    def transform(self, slot):
+        return slot
+
+
+class SCRG_reverse_0(_SCRG_reverse_changes):
+    atomic = True
+
+
+class SCRG_reverse_1(_SCRG_reverse_changes):
+    atomic = False
+
+
 class CRG_reverse_0(LoopInv):
     """for bond in self.bonds:
            r = self._bond_attrs[bond].get("reaction", None)
            if r == Change.FORMED: rev_reac.set_bond_attribute(*bond, "reaction", Change.BROKEN)
-           elif r == Change.BROKEN: rev_reac.set_bond_attribute(*bond, "reaction", Change.FORMED)"""
+           elif r == Change.BROKEN: rev_reac.set_bond_attribute(*bond, "reaction", Change.FORMED)
+
+    rev_reac = self.copy(): in the deepcopy model the copy of the object at reference r lives at r + off.  The invariant
+    speaks about the rows at `reference of the SOURCE's attribute dict + off` so that its triggers are free of the lambda
+    terms of that model (E-matching cannot match inside a lambda)."""
     modifies_dict_dom = ("attr",)
     modifies_dict_val = ("attr",)
 
@@ -417,31 +454,33 @@ class CRG_reverse_0(LoopInv):
         e = ctx.fr.env["rev_reac"]
         v0, E = ctx.v_entry, ctx.h_entry
         N = H.heap_of(ctx.interp).snapshot()
-        vE = GM.View(E, e)
+        off = z3.simplify(e.fields["_bond_attrs"].ref - ctx.g.fields["_bond_attrs"].ref)
         b = z3.Const("lb", BondS)
         x = z3.Int("lx")
         r_ = z3.Int("lr")
         k = z3.Const("lkk", H.KeyS)
-        row = lambda hh, r: (z3.Select(hh.dom["attr"], r), z3.Select(hh.val["attr"], r))  # noqa
-        rb = vE.bref(b)
-        dE, vEr = row(E, rb)
-        dN, vNr = row(N, rb)
+        rb = v0.bref(b) + off
+        ra = v0.aref(x) + off
+        sel = lambda hh, kind, r, kk: z3.Select(z3.Select((hh.dom if kind == "dom" else hh.val)["attr"], r), kk)  # noqa
         lab0 = v0.battr_val(b, H.K_REACTION)
         swapped = z3.And(z3.Select(done, b), v0.battr_has(b, H.K_REACTION), _swap_label(lab0) != lab0)
-        same_row = lambda r: z3.And(z3.Select(N.dom["attr"], r) == z3.Select(E.dom["attr"], r), z3.Select(N.val["attr"], r) == z3.Select(E.val["attr"], r))  # noqa
         return [
             ("visited-are-bonds", FA([b], z3.Implies(z3.Select(done, b), z3.Select(ctx.C, b)), patterns=[z3.Select(done, b)])),
+            ("the-copy-is-the-source-shifted", z3.And(e.fields["_atom_attrs"].ref == ctx.g.fields["_atom_attrs"].ref + off, off > 0)),
+            ("attribute-names-of-the-copy's-bonds-kept", FA([b, k], z3.Implies(v0.bond(b), sel(N, "dom", rb, k) == sel(E, "dom", rb, k)), patterns=[sel(N, "dom", rb, k)])),
             ("labels-of-visited-formed-and-broken-bonds-swapped-rest-of-the-attributes-kept",
-             FA([b, k], z3.Implies(vE.bond(b), z3.And(z3.Select(dN, k) == z3.Select(dE, k),
-                                                      z3.Select(vNr, k) == z3.If(z3.And(swapped, k == H.K_REACTION), _swap_label(lab0), z3.Select(vEr, k)))))),
-            ("atom-attribute-dicts-of-the-copy-untouched", FA([x], z3.Implies(vE.atom(x), same_row(vE.aref(x))))),
-            ("objects-of-the-source-untouched", FA([r_], z3.Implies(r_ < E.A0, same_row(r_)))),
+             FA([b, k], z3.Implies(v0.bond(b), sel(N, "val", rb, k) == z3.If(z3.And(swapped, k == H.K_REACTION), _swap_label(lab0), sel(E, "val", rb, k))),
+                patterns=[sel(N, "val", rb, k)])),
+            ("atom-attribute-dicts-of-the-copy-untouched",
+             FA([x, k], z3.Implies(v0.atom(x), z3.And(sel(N, "dom", ra, k) == sel(E, "dom", ra, k), sel(N, "val", ra, k) == sel(E, "val", ra, k))),
+                patterns=[sel(N, "dom", ra, k), sel(N, "val", ra, k)])),
+            ("objects-of-the-source-untouched",
+             FA([r_], z3.Implies(r_ < E.A0, z3.And(z3.Select(N.dom["attr"], r_) == z3.Select(E.dom["attr"], r_), z3.Select(N.val["attr"], r_) == z3.Select(E.val["attr"], r_))),
+                patterns=[z3.Select(N.dom["attr"], r_), z3.Select(N.val["attr"], r_)])),
         ]
 
     def hints(self, ctx, x):
-        e = ctx.fr.env["rev_reac"]
-        vE = GM.View(ctx.h_entry, e)
-        return [ctx.v_entry.bref(x), vE.bref(x)]
+        return [ctx.v_entry.bref(x)]
 
 
 def _role_loop(label):
@@ -467,6 +506,8 @@ def _role_loop(label):
 
 
 LOOPS = {
+    ("graphs/scrg.py", "StereoCondensedReactionGraph.reverse_reaction", 0): SCRG_reverse_0,
+    ("graphs/scrg.py", "StereoCondensedReactionGraph.reverse_reaction", 1): SCRG_reverse_1,
     ("graphs/crg.py", "CondensedReactionGraph.reverse_reaction", 0): CRG_reverse_0,
     ("graphs/smg.py", "StereoMolGraph.relabel_atoms", 0): SMG_relabel_0,
     ("graphs/smg.py", "StereoMolGraph.relabel_atoms", 1): SMG_relabel_1,
